@@ -7,6 +7,10 @@ CHECKS = {
  # id: (category, level text, level note, design_ref, technique override)
  "C03": ("model_checking", "For every pair of entry lists within the length bound (all section interleavings incl. re-opened sections, duplicates, empty sides, constructor-made empty objects; keys symbolic) the merge result satisfies each clause of the statement and every array write stays inside base+override entries.",
          "entry counts and section patterns are concrete per instance (all patterns up to A<->B renaming are enumerated as instances), keys symbolic; objects built in the parser's memory shape", "6/C03", None),
+ "C10": ("model_checking", "Every read-only API call (8 typed getters, Def getters, extended getter, listings, path and tag queries), with every section/key argument spelling, leaves every byte of an arbitrary valid object unchanged; one step from an arbitrary state, sequences by induction.",
+         "states: up to 2 (quick) / 3 (thorough) entries over concrete section patterns, symbolic keys and value bytes; write/merge as users are covered by C07/C03 harnesses", "6/C10", None),
+ "C11": ("model_checking", "One operation (set/get/getDef/list, symbolic arguments incl. bracketed/NULL/empty section, NULL/empty key, NULL object) from every valid pre-state matches the reference ordered map and re-establishes the representation invariant; histories of any length follow by induction over the invariant.",
+         "the invariant (entries + owned section list + pre-initialised tail) is the trusted inductive hypothesis; universe of 4 sections x 3 keys", "6/C11", None),
  "C04": ("model_checking", "Every CBMC memory-safety/overflow obligation in the parser and the follow-up API calls is discharged for all byte strings within the bound (all 256 byte values, every delimiter class, comment set and option); not a proof beyond the bound.",
          "bounds: file length/lines per instance (see evidence); libc/stdio models in env/; capacity model of strdup/realloc; allocation failure out of scope", "6/C04", None),
  "C08": ("model_checking", "For every value of each numeric type (all bit patterns) and every case variant of the boolean words the set/get pair is exact; decided symbolically, not sampled.",
